@@ -19,8 +19,9 @@ from ..framework import main
 
 
 class RecSigner(object):
-    def __init__(self, idx, log):
+    def __init__(self, idx, log, keep_bytearray=False):
         self.idx, self.log = idx, log
+        self.pub = bytearray(b'PUB|%d' % idx) if keep_bytearray else None      # a signer that hands out the bytearray it keeps
 
     def Sign(self, data):
         self.log.append(('sign', self.idx, bytes(data)))
@@ -28,10 +29,12 @@ class RecSigner(object):
 
     def GetPublicKey(self):
         self.log.append(('pub', self.idx))
+        if self.pub is not None:
+            return self.pub
         return b'PUB|%d' % self.idx
 
 
-def run_script(mode, sc, sess=None, seed=0, stray_frames=None):
+def run_script(mode, sc, sess=None, seed=0, stray_frames=None, keys=None):
     """sc: dict(nkeys, need_auth, accept_at, pub_accept, bad_at, strays, md, cb, token_len) -> (trace, outcome, session)"""
     if sess is None:
         dev = simdev.SimDevice(seed=seed)
@@ -51,13 +54,15 @@ def run_script(mode, sc, sess=None, seed=0, stray_frames=None):
                                  bad_auth_type=(sc['bad_at'] - 1) if sc.get('bad_at') else None,
                                  tokens=[bytes(rng.randrange(256) for _ in range(tl)) for _ in range(8)])
     log = []
-    keys = [RecSigner(i + 1, log) for i in range(sc['nkeys'])]
+    if keys is None:
+        keys = [RecSigner(i + 1, log, keep_bytearray=bool(sc.get('keep_pub'))) for i in range(sc['nkeys'])]
+    at = sc.get('auth_timeout', 7.0)
     cbs = []
 
     def cb(dev_):
         sess.rec.ev('cb')
         cbs.append(1)
-    kw = dict(rsa_keys=keys if sc['nkeys'] else [None, [], ()][seed % 3], auth_timeout_s=7.0, read_timeout_s=3.0, transport_timeout_s=2.0)
+    kw = dict(rsa_keys=keys if sc['nkeys'] else [None, [], ()][seed % 3], auth_timeout_s=at, read_timeout_s=3.0, transport_timeout_s=2.0)
     if sc['cb']:
         kw['auth_callback'] = cb
     o = sess.call('connect', **kw)
@@ -69,7 +74,7 @@ def run_script(mode, sc, sess=None, seed=0, stray_frames=None):
     for e in ev:
         k = e['ev']
         if k == 'call':
-            tr.append(dict(ev='call', api='connect', nkeys=sc['nkeys'], cb=bool(sc['cb']), auth_timeout=7000))
+            tr.append(dict(ev='call', api='connect', nkeys=sc['nkeys'], cb=bool(sc['cb']), auth_timeout=-1 if at is None else int(at * 1000)))
         elif k == 'tx':
             pl = e['_payload']
             if e['cmd'] == 'CNXN':
@@ -102,6 +107,7 @@ def run_script(mode, sc, sess=None, seed=0, stray_frames=None):
             tr.append(dict(ev='ret', api='connect', value=o.value is True, avail=bool(sess.device.available), chunk=int(sess.device.max_chunk_size)))
         elif k == 'exc':
             tr.append(dict(ev='exc', api='connect', cls=e['cls'], avail=bool(sess.device.available)))
+    sess.last_keys = keys
     return tr, o, sess
 
 
@@ -224,6 +230,18 @@ def body(ctx):
                 meta.append((mode, [sc]))
             traces.append(tr)
             sess.close_loop()
+    # the same signer objects used for several connects (a signer may hand out the very bytearray it keeps), unusual auth timeouts
+    for mode in ('sync', 'async'):
+        for at in (None, 0, 0.5, 7.0):
+            sc = dict(nkeys=2, need_auth=True, accept_at=0, pub_accept=True, bad_at=0, strays=[], md=4096, cb=True, keep_pub=True, auth_timeout=at)
+            tr, o, sess = run_script(mode, sc, seed=ctx.seed + 77)
+            keys = sess.last_keys
+            for rep in range(2):
+                tr2, o2, _ = run_script(mode, dict(sc, pub_accept=(rep == 0)), sess=sess, seed=ctx.seed + 78 + rep, keys=keys)
+                tr = tr + tr2
+            sess.close_loop()
+            traces.append(tr)
+            meta.append((mode, [dict(sc, note='three connects with the same signer objects')]))
     # random scripts
     for j in range(100 if ctx.quick else 3000):
         nk = rng.randint(0, 4)
